@@ -109,6 +109,7 @@ def run(ctx):
     type_size_rules(ctx)
     plumbing(ctx)
     accumulating_loops(ctx)
+    registry_never_shrinks(ctx)
 
 
 # ------------------------------------------------------------------------------------------------
@@ -566,6 +567,15 @@ def tdb_rules(ctx, A):
         return
     R = strip(td['regions'])
     packed = strip(td['packed'])
+    # the type's own doc text is the doc of its own attribute list (C17), handed on as it is
+    d0 = strip(td.get('doc', ('x',)))
+    hops_ = 0
+    while d0[0] == 'var' and len(tdb.defs().get(d0[1], [])) == 1 and not (1 <= d0[1] <= tdb.nargs) and hops_ < 4:
+        d0, hops_ = strip(tdb.expr_of_def(tdb.defs()[d0[1]][0])), hops_ + 1
+    dcall = unwrap_all(d0)
+    okdoc = is_call(dcall, 'Attributes::doc') and dcall[2] and strip(dcall[2][0])[0] == 'field' and strip(dcall[2][0])[2] == 'attributes' and \
+        strip(strip(dcall[2][0])[1])[0] in ('arg', 'var') and not any(isinstance(y, tuple) and y and y[0] == 'payload' for y in walk(strip(dcall[2][0])))
+    ctx.ob(['C17'], 'R-SLP', 'TDB|doc-from-own-attributes', okdoc, 'TypeDefinition.doc is Attributes::doc of the definition\'s own attribute list, unchanged: %s' % show(d0)[:100], where)
     rrcall = [x for x in walk(R) if is_call(x, rr.id)]
 
     def pure_projection(e):
@@ -1271,7 +1281,7 @@ ORDER_BEARING = [REGION, 'grammar::TypeStatement', 'semantic::function::Function
                  # field paths of the hierarchy walk and of the AsRef / AsMut bodies, (path, type) pairs
                  "std::slice::Iter<'_, std::string::String>", "std::slice::Iter<'_, &str>", "std::slice::Iter<'_, proc_macro2::Ident>",
                  "std::slice::Iter<'_, (std::vec::Vec<proc_macro2::Ident>, syn::Type)>", "std::slice::Iter<'_, (std::vec::Vec<std::string::String>, semantic::types::Type)>"]
-ORDER_CHANGING = re.compile(r'(slice::<impl \[T\]>::(sort\w*|reverse|swap|rotate_\w+|select_nth\w*)|Vec::<T, A>::(insert|remove|retain\w*|dedup\w*|drain|swap_remove|pop|truncate|split_off)|'
+ORDER_CHANGING = re.compile(r'(slice::<impl \[T\]>::(sort\w*|reverse|swap|rotate_\w+|select_nth\w*)|Vec::<T, A>::(insert|remove|retain\w*|dedup\w*|drain|swap_remove|pop|truncate|split_off|clear)|'
                             r'Iterator::(rev|skip|take|step_by|skip_while|take_while|map_while|scan|fuse|cycle)|DoubleEndedIterator::\w+|Iterator::(last|max\w*|min\w*))$')
 # reviewed order-changing calls: (function, callee fragment, element type fragment) -> reason
 SEQ_ALLOW = [
@@ -1370,6 +1380,26 @@ def accumulating_loops(ctx):
                     'an accumulating loop can be left early with a normal result (a `break` / early return drops the remaining elements): exits %s' % bad[:3]) +
                    (' — reviewed: ' + why if (bad and why) else ''), loc(f.term(h)['span']), nontrivial=bool(bad))
     ctx.ob(['C14'], 'R-ITER', 'no-early-exit|census', n >= 15, 'accumulating `for` loops examined: %d (floor 15)' % n, nontrivial=False)
+
+
+MAP_REMOVAL = re.compile(r'(HashMap|HashSet|BTreeMap|BTreeSet)::<[^<>]*>::(remove|remove_entry|retain|clear|drain|extract_if|take)$')
+
+
+def registry_never_shrinks(ctx):
+    """modules, registered items, impl blocks and backend sections are only ever added: nothing removes an entry from one of the
+    crate's maps between parsing and emission (a removed module is a missing output file, a removed item a missing definition)"""
+    P = ctx.prog
+    sites = []
+    for f in P.fns.values():
+        if f.raw.get('derived') or not re.match(r'^(semantic|backends|build|grammar)', f.id):
+            continue
+        for c in f.calls(lambda r: r['path'] and MAP_REMOVAL.search(r['path'])):
+            full = (c['callee'].get('rfull') or c['callee'].get('full') or '') + ' ' + ' '.join(c['callee'].get('gargs', []))
+            if re.search(r'semantic::|grammar::', full):
+                sites.append('%s: %s' % (short(f.id), short(c['path'])))
+    ok = not sites
+    selftest = bool(MAP_REMOVAL.search('std::collections::HashMap::<K, V, S, A>::retain')) and bool(MAP_REMOVAL.search('std::collections::HashSet::<T, S>::remove'))
+    ctx.ob(['C14', 'C10', 'C19'], 'R-STATE', 'maps-only-grow', ok and selftest, 'no entry is ever removed from a map of modules / items / impl blocks / backends: %s' % sites[:3], nontrivial=not ok)
 
 
 def seq_rules(ctx):
